@@ -164,6 +164,8 @@ Definition s_c12 (legacy : bool) (pre : obs) (s : tstep) : N :=
       if negb ok then (if money_same pre post then 0 else 4)
       else if legacy && negb (forallb (fun e => let '(_, k, x, _) := e in x =? ohold post k) (ob_chan post)) then 15
                                                 (* migrated from an old layout, yet outstanding <> what is actually escrowed *)
+      else if negb legacy && negb (chan_same pre post) then 16
+                                                (* a migration of an up-to-date contract rewrote channel balances *)
       else 0
   end.
 
